@@ -122,9 +122,10 @@ Definition sat_abs_plan (st : state) (kids : list nat) (plan : list step) (ans :
 Definition sat_abs (st : state) (kids order : list nat) (ans : list Z) : bool :=
   sat_abs_plan st kids (plan_of st (full_order st kids order)) ans.
 
-(* the program only mentions declared variables, answer ids are declared *)
+(* every variable occurrence in a constraint matches its declaration (Program.refs_ok),
+   answer ids are declared *)
 Definition wf_prog (st : state) (kids : list nat) : bool :=
-  forallb (fun c => Nat.leb (max_id c) (length (vars st))) (cons st) &&
+  forallb (refs_ok (vars st)) (cons st) &&
   forallb (fun i => Nat.ltb i (length (vars st))) kids.
 
 (* the per-instance Tier-2 obligation: on every candidate answer the captured
